@@ -3,7 +3,7 @@ operation record `FpOps α` (so `generated = hand model` is stated once for ever
 declarations of `fp_t` locals, calls of the fp_* API on `&(v->re)`, `&(v->im)`, `&local`, `&ONE`, scalar parameters, and
 `return <call> & <call>` / `return <call>`; for fp2_sqrt also `uint32_t v = <mask expression>` (`~`, `&`, `|`, value calls,
 `-((uint32_t)buf[0] & 1)`), mask expressions as the last argument of fp_select / fp_cswap, and `fp_encode(buf, &v)` into a local byte buffer.  Anything else raises TranslateError.  Not translated (loops, byte buffers, `~`
-): fp2_batched_inv, fp2_pow_vartime, fp2_encode, fp2_decode, fp2_print (listed; the set of functions of the
+): fp2_batched_inv, fp2_encode, fp2_decode, fp2_print; fp2_pow_vartime is translated by fp2loops.py (listed; the set of functions of the
 file is checked)."""
 import os, re, sys
 
